@@ -66,8 +66,10 @@ func (ps *PubSub) Subscribe(_ context.Context, conn *net.Conn, channels []string
 		// Check if channel with given name exists
 		// If it does, subscribe the connection to the channel
 		// If it does not, create the channel and subscribe to it
+		// A channel and a pattern may be spelled the same ("news" is also a valid pattern): they are
+		// different subscriptions, so the lookup has to match the kind as well as the name.
 		channelIdx := slices.IndexFunc(ps.channels, func(channel *Channel) bool {
-			return channel.name == channels[i]
+			return channel.name == channels[i] && (channel.pattern != nil) == withPattern
 		})
 
 		if channelIdx == -1 {
@@ -149,6 +151,10 @@ func (ps *PubSub) Unsubscribe(_ context.Context, conn *net.Conn, channels []stri
 	// If unsubscribing from a pattern, also unsubscribe from all channel whose
 	// names exactly matches the pattern name.
 	for _, channel := range ps.channels { // For each channel in PubSub
+		if !withPattern && channel.pattern != nil {
+			// UNSUBSCRIBE names channels, never patterns that happen to be spelled the same.
+			continue
+		}
 		for _, c := range channels { // For each channel name provided
 			if channel.name == c && channel.Unsubscribe(conn) {
 				unsubscribed[idx] = channel.name
@@ -266,9 +272,16 @@ func (ps *PubSub) NumSub(channels []string) []byte {
 	res := fmt.Sprintf("*%d\r\n", len(channels))
 	for _, channel := range channels {
 		// If it's a pattern channel, skip it
+		// A channel and a pattern may be spelled the same: the channel is the one asked for. (A name
+		// that only exists as a pattern reports that pattern's subscribers, as it always did.)
 		chanIdx := slices.IndexFunc(ps.channels, func(c *Channel) bool {
-			return c.name == channel
+			return c.name == channel && c.pattern == nil
 		})
+		if chanIdx == -1 {
+			chanIdx = slices.IndexFunc(ps.channels, func(c *Channel) bool {
+				return c.name == channel
+			})
+		}
 		if chanIdx == -1 {
 			res += fmt.Sprintf("*2\r\n$%d\r\n%s\r\n:0\r\n", len(channel), channel)
 			continue
